@@ -14,6 +14,13 @@ Rows and where they are documented:
   strings_vectors    char*/std::string/std::vector in/out/result (tools/gen/libgen.py rows)
   overloads_defaults overloaded functions and trailing default arguments
   enum_ns            enums and nested namespaces
+  template_defaults  feature COMBINATIONS around clones: function templates (docs/cxx.rst cxx_template) with >= 2 instantiations together
+                     with trailing default arguments, overloaded templates, a class method template with a default, fortran_generic
+                     with a default: every clone must be declared and defined once
+  enum_expr          enumerators defined by expressions over earlier members (BOTH = LEFT + RIGHT, NEXT) at library level, in a
+                     namespace, in a class, as enum class, and with a non-default F_enum_member_template (docs/reference.rst)
+  struct_members     a struct whose members have kinds nothing else in the module uses (scalar char, bool, short, float, long long,
+                     size_t, pointers, fixed arrays): every kind named by a member declaration must be use-associated
   fixed_width        a type that needs a header of its own (int8_t..uint64_t -> <stdint.h>/<cstdint>, size_t -> <stddef.h>) used in
                      exactly ONE place of the library: element type of a std::vector, pointee of an array argument, scalar argument
                      or result (docs/types.rst); the other functions use plain int/double only
@@ -37,11 +44,11 @@ import yaml
 
 from tools.gen import libgen
 
-FEATURES = ["fixed_width", "class_result", "namespace_helpers", "struct_in_class", "assumed_rank", "fmodule_mix", "class_own_header", "class_cpp_if", "callback", "long_args", "long_types", "strings_vectors",
+FEATURES = ["template_defaults", "enum_expr", "struct_members", "fixed_width", "class_result", "namespace_helpers", "struct_in_class", "assumed_rank", "fmodule_mix", "class_own_header", "class_cpp_if", "callback", "long_args", "long_types", "strings_vectors",
             "overloads_defaults", "enum_ns"]
-CXX_ONLY = {"class_result", "namespace_helpers", "struct_in_class", "class_own_header", "class_cpp_if", "long_types", "strings_vectors", "overloads_defaults"}
+CXX_ONLY = {"template_defaults", "class_result", "namespace_helpers", "struct_in_class", "class_own_header", "class_cpp_if", "long_types", "strings_vectors", "overloads_defaults"}
 
-SOLO = {"fixed_width", "namespace_helpers"}
+SOLO = {"fixed_width", "namespace_helpers", "struct_members"}
 
 LONGWORDS = ["temperature", "pressure_gradient", "component_index", "number_of_values", "relative_tolerance",
              "boundary_condition_flag", "time_step_size", "state_vector_length", "iteration_counter", "scaling_factor"]
@@ -105,6 +112,53 @@ def f_fmodule_mix(r, idx, language="c++"):
     out.append({"decl": r.choice(["int *raw_result%d(double x) +deref(raw)", "void *opaque_result%d(int x)",
                                   "int *pointer_result%d(int n) +deref(pointer)+dimension(n)"]) % idx})
     return out, []
+
+
+def f_template_defaults(r, idx):
+    out = []
+    inst = r.sample(["<int>", "<double>", "<long>", "<float>"], r.randrange(2, 4))
+    ndef = r.randrange(1, 3)
+    defs = ", ".join("%s d%d = %d" % (r.choice(["int", "long"]), j, j + 1) for j in range(ndef))
+    out.append({"decl": "template<typename T> void accum%d(T value, %s)" % (idx, defs),
+                "cxx_template": [{"instantiation": i} for i in inst]})
+    if r.random() < 0.5:
+        out.append({"decl": "template<typename T> int rank_of%d(T value)" % idx,
+                    "cxx_template": [{"instantiation": i} for i in inst[:2]]})
+    if r.random() < 0.6:
+        out.append({"decl": "void generic_fn%d(double x, int d0 = 3)" % idx,
+                    "fortran_generic": [{"decl": "(float x)"}, {"decl": "(double x)"}]})
+    out.append({"decl": "double with_two_defaults%d(double a, int d0 = 1, long d1 = 2)" % idx})
+    return out, []
+
+
+def f_enum_expr(r, idx, language="c++"):
+    body = "{ LEFT%(i)d = 1, RIGHT%(i)d = 2, BOTH%(i)d = LEFT%(i)d + RIGHT%(i)d, NEXT%(i)d, WIDE%(i)d = BOTH%(i)d * 2 }" % {"i": idx}
+    e = {"decl": "enum Side%d %s;" % (idx, body)}
+    if language == "c":
+        return [e, {"decl": "int use_side%d(int s)" % idx}], []
+    where = r.choice(["library", "namespace", "class", "enumclass", "template"])
+    if where == "library":
+        return [e], []
+    if where == "namespace":
+        return [{"decl": "namespace sides%d" % idx, "declarations": [e]}], []
+    if where == "class":
+        return [{"decl": "class Shape_e%d" % idx, "declarations": [{"decl": "Shape_e%d()" % idx}, e, {"decl": "int sides() const"}]}], []
+    if where == "enumclass":
+        return [{"decl": "enum class Side%d %s;" % (idx, body)}], []
+    e["format"] = {"F_enum_member_template": "{F_name_scope}m_{enum_member_lower}"} if False else {}
+    e["options"] = {"F_enum_member_template": "kk_{F_name_scope}{enum_member_lower}"}
+    e.pop("format")
+    return [{"decl": "namespace pre%d" % idx, "declarations": [e]}], []
+
+
+def f_struct_members(r, idx, language="c++"):
+    members = r.sample(["char tag", "bool ok", "short s", "float f", "long long big", "size_t n", "double *ptr", "int arr[4]",
+                        "long id", "unsigned int u", "const char *label"], r.randrange(1, 4))
+    sname = "Rec%d" % idx
+    s = {"decl": "struct %s { %s; };" % (sname, "; ".join(members))}
+    user = {"decl": "int inspect%d(const %s *r)" % (idx, sname)}
+    plain = {"decl": "int plain%d(int a)" % idx}
+    return [plain, s, user] if r.random() < 0.7 else [s, plain], []
 
 
 FIXED = ["int8_t", "int16_t", "int32_t", "int64_t", "uint8_t", "uint16_t", "uint32_t", "uint64_t", "size_t"]
@@ -265,7 +319,7 @@ def gen(r, feature, language=None, allow_vector=True, name="flib"):
     for i, f in enumerate(feats):
         if f == "strings_vectors":
             d, m = f_strings_vectors(r, i, allow_vector)
-        elif f in ("enum_ns", "fmodule_mix", "fixed_width"):
+        elif f in ("enum_ns", "fmodule_mix", "fixed_width", "enum_expr", "struct_members"):
             d, m = globals()["f_" + f](r, i, language)
         else:
             d, m = globals()["f_" + f](r, i)
